@@ -86,7 +86,9 @@ def run_cli(argv, stdin_bytes=None):
 # injected expressions: also ones that are nothing but a numeric literal
 CODES = ("1+1", "12345", "1.5", "1e3", "'x'", "None", "0x10", "-7", "inf if False else 3",
          # 152 characters, 302 bytes of UTF-8
-         "'" + "\u00e9" * 150 + "'")
+         "'" + "\u00e9" * 150 + "'",
+         # the empty string is an --inject argument like any other (it is not "no --inject")
+         "")
 
 
 def code_for(parts):
@@ -174,6 +176,10 @@ def check_inject(parts, target, run_last, replace, via_stdin, scratch, subproces
         return fail("the target pickle differs from the library-level injection with the same flags")
     # ... and "the injection applied" means what it says, independently of the library helper: the
     # emitted target still loads, to the original object (or to the injected call's value)
+    try:
+        compile(code, "<inject>", "eval")
+    except SyntaxError:
+        return None  # not an expression: the emitted pickle is right (see above) and cannot load
     r0 = run_ref(parts[target])
     if r0.ok and r0.stack_at_stop != ([], []):
         return None  # the target leaves values below its result: the helpers' stack layout assumes it does not (as in C08)
@@ -306,7 +312,14 @@ def _parts():
     # (text booleans, zero-padded / L-suffixed numbers, double-quoted and escaped strings)
     unfaithful_first = st.sampled_from([b"I01\n.", b"I00\n.", b"I+7\n.", b"L5L\n.", b"L5\n.", b'S"a"\n.',
                                         b"V\\u0061\n.", b"I01\n]\x94.", b"(I01\nI00\nl."])  # fmt: skip
-    return st.one_of(*([small] * 8), big, odd_memo, leftovers, unfaithful_first)
+    # globals whose module / class names are not ASCII (legal identifiers; protocol 4 spelling)
+    def sg(module, name):
+        m, n = module.encode(), name.encode()
+        return b"\x80\x04\x8c" + bytes([len(m)]) + m + b"\x8c" + bytes([len(n)]) + n + b"\x93"
+
+    non_ascii = st.sampled_from([sg("m\u00f3dulo", "Cl\u00e4s") + b")R.", sg("verif_sink", "\u0394elta") + b".",
+                                 sg("\u6a21\u5757", "\u7c7b") + b")R\x94]\x94h\x00a."])
+    return st.one_of(*([small] * 8), big, odd_memo, leftovers, unfaithful_first, non_ascii)
 
 
 def _dumps(v, proto):
